@@ -579,6 +579,9 @@ func vaKindClass(kinds []string) string {
 		ks = append(ks, k)
 	}
 	sort.Strings(ks)
+	if len(ks) == 0 {
+		return "nochange"
+	}
 	return strings.Join(ks, "+")
 }
 
